@@ -1,3 +1,27 @@
 add("C18", "checks/c18_errquery.c", ["default-asan", "heap-asan", "default-plain"], ["default-asan", "heap-asan", "default-plain", "heap-plain"],
-    "placeholder",
-    technique="runtime monitor", level_text="x", level_note="x", assumptions=["x"])
+    "cases = batches of (code, text, push path, queue situation) -> one SYST:ERR? query each, evaluations = queries judged. "
+    "codes: every int16_t code once without text (256 blocks of 256; SCPI_ErrorPush / PushEx(NULL,0) / PushEx(NULL,n)), every 8th also with a text; "
+    "lengths: every text length 0..400 x first quote at every position 0..length x 1..3 quotes (adjacent or scattered; thorough: 6 variants incl. punctuation); "
+    "limit: codes with descriptions of different lengths (8 in quick, one per distinct length 8..44 + fallback in thorough) x description;text of every total length 236..268 x "
+    "every set of <=3 quote positions in an 11 (thorough 14) wide window around the cut x 0..2 (3) earlier quotes x explicit/automatic length; "
+    "random: random codes/lengths 0..1000/contents (7-bit incl. control characters and ; , ' space, 8-bit bytes, up to all-quote texts); "
+    "exactsrc (heap configuration only): explicit-length pushes from exact-size unterminated buffers with the heap copy ending at / wrapping around the end of the heap. "
+    "An entry is queried as the only one or behind two fillers (order, release of the predecessor; in the heap configuration the first filler is sized so that the stored text wraps "
+    "around the end of the 1024-byte info heap at a chosen offset: at the cut, at a quote, anywhere). distinct_nontrivial counts case keys "
+    "(block, length x variant, (code,total), first (code,text) of each random batch), a lower bound",
+    exhaustive=dict(quick=False, thorough=False),
+    technique="runtime monitor: the real SYST:ERR? handler is driven through SCPI_Input on a capture interface; the captured bytes are read by an independent IEEE 488.2 "
+              "string-response reader and compared with the longest prefix of description;text whose escaped form fits 255 characters (computed from the statement); "
+              "own description table expanded from LIST_OF_ERRORS; exact-size source buffers under ASan+UBSan",
+    level_text="exploration by execution: all 65536 codes, every text length 0..400 with a quote at every position, every <=3-subset of quote positions around the 255-character "
+               "boundary for every description length, ~0.9 M queries per build in quick and ~13 M per build in thorough, in the malloc and static-heap configurations; "
+               "texts with more than 3 quotes and arbitrary contents are sampled, not enumerated",
+    level_note="trusted: the 30-line response reader and the prefix/limit computation in checks/c18_errquery.c, LIST_OF_ERRORS in scpi/error.h as the table of descriptions, the sanitizer runtimes. "
+               "Not asserted (statement silent, counted only): number of flushes, whether an empty but non-NULL text yields `description` or `description;` "
+               "(malloc build emits the ';', static-heap build does not), prefix/cut rules for texts with 8-bit bytes (they held on all executed cases). "
+               "In the heap configuration all phases but `exactsrc` append one readable byte after explicit-length texts so that the one-byte over-read of scpiheap_strndup "
+               "(reported under asan:heap-buffer-overflow:scpiheap_strndup) does not abort every case of that build",
+    assumptions=["response reader and expected-prefix computation in checks/c18_errquery.c are correct",
+                 "LIST_OF_ERRORS in scpi/error.h is the authoritative code->description table; codes outside it share one non-empty fallback description",
+                 "info heap of 1024 bytes and queue of 8 entries are large enough that every pushed text is stored (storage refusal is C20's subject)",
+                 "texts contain no NUL byte (C strings); line ending is SCPI_LINE_ENDING of the build"])
